@@ -363,7 +363,8 @@ def _r2(ctx):
                 decls = list(re.finditer(r"\b(?:realtype|double)\s+" + re.escape(arr) + r"\s*\[[^\]]+\]\s*(=\s*\{([^}]*)\})?\s*;", body))
                 before = [d for d in decls if d.start() < m.start()]
                 if not before:
-                    ctx.bad("R2", key, (rel, 0), f"`{arr}` is not declared in {f.name} before it is passed to {callee}")
+                    # a parameter / member / differently spelled declaration: where the array is initialised cannot be seen from here
+                    ctx.unrec("R2", key, (rel, 0), f"`{arr}` is not declared (realtype {arr}[..] ..;) in {f.name} before it is passed to {callee}: its initialisation is not visible")
                     continue
                 d = before[-1]
                 init = d.group(2)
@@ -536,14 +537,26 @@ def _windows_unconditional(ctx, pkg):
         for attr in ("temp_min", "temp_max"):
             st = [f for f in fl.facts if f.kind == "attrstore" and f.target == attr]
             if not st:
-                ctx.bad("R4", f"{cls}:{attr} stored", (file, fn.lineno), f"{cls}._parse_string never stores {attr}")
+                if any(isinstance(c, ast.Call) and (ast.unparse(c.func) in ("setattr", "vars") or (isinstance(c.func, ast.Attribute) and c.func.attr in ("update", "__setattr__"))) for c in ast.walk(fn)):
+                    ctx.unrec("R4", f"{cls}:{attr} stored", (file, fn.lineno), f"{cls}._parse_string has no plain store into self.{attr} (attributes are set indirectly)")
+                else:
+                    ctx.bad("R4", f"{cls}:{attr} stored", (file, fn.lineno), f"{cls}._parse_string never stores {attr}")
                 continue
             v = simp(st[-1].value)
-            ok = v[0] == "call" and v[1] == ("global", "float") and len(v[2]) == 1 and (v[2][0][0] in ("item", "sub") or (v[2][0][0] == "phi" and cls == "UCLCHEMReaction"))
-            ctx.check(ok, "R4", f"{cls}:{attr} = float(field)", (file, st[-1].line),
-                      f"self.{attr} is float(<the field of the record>)" if ok else
-                      f"self.{attr} is not simply float(<field>): a limit the code does not like (fractional, exponent notation) silently becomes another value / 'unbounded', so the window guard is lost",
-                      expected="float(<field>)", found=show(v)[:100])
+            inner = v[2][0] if v[0] == "call" and v[1] == ("global", "float") and len(v[2]) == 1 and not v[3] else None
+            while inner is not None and inner[0] == "meth" and inner[2] == "strip" and not inner[3]:
+                inner = inner[1]          # float() ignores surrounding blanks anyway
+            ok = inner is not None and (inner[0] in ("item", "sub", "elem") or (inner[0] == "phi" and cls == "UCLCHEMReaction"))
+            key = f"{cls}:{attr} = float(field)"
+            if ok:
+                ctx.ok("R4", key, (file, st[-1].line), f"self.{attr} is float(<the field of the record>)")
+            elif any(isinstance(x, tuple) and x and x[0] in ("phi", "ifexp", "bool") for x in walk(v)) or v[0] == "const" or len(st) > 1:
+                # a value chosen by a condition / a constant / a second store: the positive evidence of a fallback
+                ctx.bad("R4", key, (file, st[-1].line),
+                        f"self.{attr} is not simply float(<field>): a limit the code does not like (fractional, exponent notation) silently becomes another value / 'unbounded', so the window guard is lost",
+                        expected="float(<field>)", found=show(v)[:100])
+            else:
+                ctx.unrec("R4", key, (file, st[-1].line), f"cannot see that self.{attr} is float(<field of the record>): {show(v)[:100]}")
 
 
 def class_constants_inlined(pkg, cls: str, fn):
